@@ -108,6 +108,12 @@ M("C13", "incr-wraps-one-late", (QF, "        *pos = if *pos == self.is_occupied
 M("C13", "shifted-flag-unconditional-off", (QF, "        if scan_result.position != quotient {\n            // not at canonical slot\n            self.is_shifted.set(scan_result.position, true);\n        }", "        if scan_result.position > quotient {\n            // not at canonical slot\n            self.is_shifted.set(scan_result.position, true);\n        }"), "R13-placement-flags", "insert_internal")
 M("C13", "quotient-one-bit-short", (QF, "        let quotient = fingerprint_clean >> bits_remainder;\n        let remainder = fingerprint_clean - (quotient << bits_remainder);", "        let quotient = fingerprint_clean >> bits_remainder >> 1 << 1;\n        let remainder = fingerprint_clean - ((fingerprint_clean >> bits_remainder) << bits_remainder);"), "R13-split", "calc_quotient_remainder")
 B("C13", "chain-reorder-independent-reads", (QF, "            let next_is_continuation = self.is_continuation[position];\n            let next_remainder = self.remainders.get(position as u64);", "            let next_remainder = self.remainders.get(position as u64);\n            let next_is_continuation = self.is_continuation[position];"))
+M("C13", "scan-sorted-break-wrong-direction", (QF, "                if r > remainder {\n                    // remainders are sorted within run\n                    break;", "                if r < remainder {\n                    // remainders are sorted within run\n                    break;"), "R13-scan", "scan")
+M("C13", "scan-skip-run-on-shifted", (QF, "                self.incr(&mut s);\n                if !self.is_continuation[s] {\n                    break;\n                }\n            }\n\n            // find the next occupied bucket", "                self.incr(&mut s);\n                if !self.is_shifted[s] {\n                    break;\n                }\n            }\n\n            // find the next occupied bucket"), "R13-scan", "scan")
+M("C13", "scan-cluster-start-walks-right", (QF, "        while self.is_shifted[b] {\n            self.decr(&mut b);", "        while self.is_shifted[b] {\n            self.incr(&mut b);"), "R13-scan", "scan")
+M("C13", "scan-fast-path-also-on-insert", (QF, "        if (!run_exists) && (!on_insert) {", "        if !run_exists {"), "R13-scan-results", "fast-path")
+M("C13", "scan-present-reports-run-start", (QF, "                    return ScanResult {\n                        present: true,\n                        position: s,", "                    return ScanResult {\n                        present: true,\n                        position: start_of_run,"), "R13-scan-results", "scan")
+B("C13", "scan-sorted-break-ge", (QF, "                if r > remainder {\n                    // remainders are sorted within run\n                    break;", "                if r >= remainder {\n                    // remainders are sorted within run\n                    break;"))
 B("C13", "bind-capacity", (QF, "        if self.n_elements == self.is_occupied.len() {", "        let capacity = self.is_occupied.len();\n        if self.n_elements == capacity {"))
 
 # ======================================================================================= C18
